@@ -37,6 +37,21 @@ def run(ctx, ps, gen_bad):
             st = dict(t.split('=') for t in line.split()[1:])
     if rc2 != 0 or not st:
         fails.append(Failure('C16', 'tie', 'xdr-driver', (o + e)[-400:], replay=rep))
+    if ps and ps.get('broken'):
+        # name the RFC types / procedures on which the conformance obligations fail (computed by Coq itself)
+        wf = os.path.join(ctx.work, 'Witness.v')
+        open(wf, 'w').write(
+            'From Coq Require Import List String NArith.\nFrom V Require Import Model.Xdr Model.XdrConform Gen.GenXdr Gen.GenRfc.\nImport ListNotations.\n'
+            'Definition W1 := Eval vm_compute in (nonconforming gen_env rfc_env).\nPrint W1.\n'
+            'Definition W2 := Eval vm_compute in (map (fun r => let \'(p, v, n, nm, _, _) := r in (p, v, n, nm)) (filter (fun r => negb (match filter (fun g => same_slot g r) gen_procs with [g] => proc_ok g r | _ => false end)) rfc_procs)).\nPrint W2.\n'
+            'Definition W3 := Eval vm_compute in (map (fun g => let \'(p, v, n, w, _, _, _) := g in (p, v, n, w)) (filter (fun g => negb (existsb (fun r => same_slot g r) rfc_procs)) gen_procs)).\nPrint W3.\n')
+        rcw, ow, ew = vlib.sh(['coqc', '-Q', os.path.join(vlib.V, 'coq'), 'V', wf], cwd=ctx.work, timeout=600)
+        txt = re.sub(r'\s+', ' ', ow)
+        for nm, what in (('W1', 'type-layout-differs-from-RFC'), ('W2', 'RFC-procedure-not-dispatched-as-specified'), ('W3', 'registered-procedure-not-in-RFC')):
+            m = re.search(nm + r' = \[(.*?)\] *:', txt)
+            if m and m.group(1).strip():
+                items = m.group(1).strip()
+                fails.append(Failure('C16', 'xdr', nm, '%s: %s' % (what, items[:300]), replay=dict(rep, witness=items[:2000], how='coqc Witness.v: ' + what)))
     samples = []
     try:
         for i, line in enumerate(open(trace)):
